@@ -421,6 +421,31 @@ def check_roundtrip(tier, seed):
                 V(f"export-overwrite-stale: reactions.naunet holds {nlines} reactions after re-export, the network has {len(net.reaction_list)}")
     finally:
         shutil.rmtree(d, ignore_errors=True)
+    # a network that was written once, then edited in memory, then written again: the second file follows the edit
+    fresh()
+    d = tempfile.mkdtemp(prefix="vf_edit_")
+    try:
+        from naunet.reactions.reaction import Reaction
+        from naunet.reactiontype import ReactionType as RT
+        net = Network([Reaction(["C", "H"], ["CH"], 10.0, 300.0, 1.5e-10, 0.5, 2.0, RT.GAS_TWOBODY, 3), Reaction(["CH", "H"], ["C", "H2"], 10.0, 300.0, 2.5e-10, 0.0, 0.0, RT.GAS_TWOBODY, 4)])
+        p1, p2 = os.path.join(d, "a.naunet"), os.path.join(d, "b.naunet")
+        net.write(p1, "naunet")
+        fresh()
+        back = Network(filelist=p1, fileformats="naunet")
+        for target in (net, back):
+            r0 = target.reaction_list[0]
+            r0.alpha, r0.temp_max, r0.idxfromfile = 4.5e-10, 800.0, 17
+            target.write(p2, "naunet")
+            fresh()
+            again = Network(filelist=p2, fileformats="naunet")
+            cases += 1
+            g = again.reaction_list[0]
+            if (g.alpha, g.temp_max, g.idxfromfile) != (4.5e-10, 800.0, 17):
+                V(f"edit-then-write: after alpha=4.5e-10, temp_max=800, index=17 were set in memory the written file reads back alpha={g.alpha}, temp_max={g.temp_max}, index={g.idxfromfile}")
+    except Exception as e:
+        V(f"edit-then-write-raises: {type(e).__name__}: {e}")
+    finally:
+        shutil.rmtree(d, ignore_errors=True)
     # the exported project file carries the species data under the species' own names (what `naunet render` looks them up by)
     fresh()
     try:
